@@ -26,7 +26,15 @@ Definition cb_keeps (k : cbkind) : bool := match k with CbTrue => true | _ => fa
 
 (* one command: identity, what the device emits after receiving it, reply length (byte mode), delay after it
    (multicomm), no reply expected (writeline / multicomm item with expect_reply = False) *)
-Record exch := { x_id : nat; x_emit : list (Z * list N); x_close : option Z; x_n : nat; x_delay : Z; x_noreply : bool }.
+(* a line of a multi-line command that StringIO.communicate splits off when wait_before is set: identity, what the
+   device emits after receiving it, optional close *)
+Definition line := (nat * list (Z * list N) * option Z)%type.
+Definition line_id (l : line) : nat := fst (fst l).
+(* x_wait = IOBase.wait_before in ticks (a parameter of the communicator; carried by every command so that the theorems
+   hold for every value, also one that changes between commands); x_pre = the lines in front of the last line of the
+   command text (command.split(eol_write)[:-1]); the exchange itself stands for the last line and the reply *)
+Record exch := { x_id : nat; x_emit : list (Z * list N); x_close : option Z; x_n : nat; x_delay : Z; x_noreply : bool;
+                 x_wait : Z; x_pre : list line }.
 Inductive op := OSingle (x : exch) | OMulti (xs : list exch) | OPause (d : Z).
 Inductive outcome := ROk (rs : list (list N)) | RFail.
 Inductive mode := MLine (eol : list N) | MBytes.
@@ -80,8 +88,12 @@ Definition set_sendlog (s : shared) (v : list (nat * nat * nat)) : shared :=
   {| lock_owner := lock_owner s; lock_cnt := lock_cnt s; acc_owner := acc_owner s; connected := connected s; conn := conn s; nconn := nconn s; queue := queue s; rxbuf := rxbuf s; last_error := last_error s; last_attempt := last_attempt s; refuse := refuse s; cbs := cbs s; cblog := cblog s; ann := ann s; sendlog := v |}.
 
 (* program counters = the synchronisation point a thread is parked at *)
+(* CWaitB w first l: inside communicate, in time.sleep(wait_before) until w in front of the send of the head of l (of
+   the last line when l = []); first = flush_recv is still to be done (garbage is None).  CSendPre l: parked at the send
+   of the head of l, a line in front of the last one *)
 Inductive cpc := CStart | CAccess | CConnect | CLockOuter | CLock | CSend | CRecv (e sl : Z)
-               | CSleepX (w : Z) | CPause (w : Z) | CDone.
+               | CSleepX (w : Z) | CPause (w : Z) | CDone
+               | CWaitB (w : Z) (first : bool) (l : list line) | CSendPre (l : list line).
 Record cst := { pc : cpc; cur : list exch; inmulti : bool; acc : list (list N); rest : list op; outs : list outcome }.
 Inductive ppc := QNone | QStart | QIdle | QAccess | QConnect.
 Record state := { sh : shared; callers : list cst; poll : ppc }.
@@ -102,6 +114,10 @@ Definition insert_emits (now : Z) (em : list (Z * list N)) (q : list item) : lis
 Definition device_react (now : Z) (x : exch) (q : list item) : list item :=
   let q1 := insert_emits now (x_emit x) q in
   match x_close x with Some d => insert_item (now + d) None q1 | None => q1 end.
+
+Definition line_react (now : Z) (l : line) (q : list item) : list item :=
+  let q1 := insert_emits now (snd (fst l)) q in
+  match snd l with Some d => insert_item (now + d) None q1 | None => q1 end.
 
 (* AsynTcp.flush_recv: take everything that is readable now; true = the end of stream was reached (recv returned
    b'' -> ConnectionClosed) *)
@@ -230,7 +246,28 @@ Definition finish_exch (now : Z) (s : shared) (c : cst) (r : option (list N)) : 
 
 Definition cur_x (c : cst) : exch :=
   match cur c with x :: _ => x
-  | [] => {| x_id := 0; x_emit := []; x_close := None; x_n := 0; x_delay := 0; x_noreply := true |} end.
+  | [] => {| x_id := 0; x_emit := []; x_close := None; x_n := 0; x_delay := 0; x_noreply := true;
+             x_wait := 0; x_pre := [] |} end.
+
+(* wait_before of the running command; the lines split off in front of its last line: `if self.wait_before and
+   self._eol_write: cmds = command.split(self._eol_write) else: cmds = [command]` (BytesIO never splits) *)
+Definition wait_of (c : cst) : Z := x_wait (cur_x c).
+Definition pre_of (c : cst) : list line :=
+  if wait_of c =? 0 then [] else match md with MLine (_ :: _) => x_pre (cur_x c) | _ => [] end.
+Definition send_pc (l : list line) : cpc := match l with [] => CSend | _ :: _ => CSendPre l end.
+
+(* `garbage = self._conn.flush_recv()` immediately in front of the first send: no connection object -> the call fails
+   ('disconnected'); end of stream -> closeConnection; otherwise everything readable now and the receive buffer are
+   thrown away and the caller is parked at its send *)
+Definition flush_then (now : Z) (s1 : shared) (c : cst) (p : cpc) : shared * cst :=
+  if conn s1 then
+    let '(closed, q) := flush now (queue s1) in
+    if closed then fail_op now (release (close_conn s1)) c
+    else (set_rxbuf (set_queue s1 q) [], set_pc c p)
+  else fail_op now (release s1) c.
+
+Definition send_line (me : nat) (now : Z) (s : shared) (l : line) : shared :=
+  set_sendlog (set_queue s (line_react now l (queue s))) (sendlog s ++ [(me, line_id l, nconn s)]).
 
 (* one step of caller `me` parked at pc c, at time now *)
 Definition caller_step (me : nat) (now : Z) (s : shared) (c : cst) : shared * cst :=
@@ -255,12 +292,18 @@ Definition caller_step (me : nat) (now : Z) (s : shared) (c : cst) : shared * cs
              end
       end
   | CLock =>
+      (* with wait_before: `time.sleep(self.wait_before)` comes first, the flush after it *)
       let s1 := acquire me s in
-      if conn s1 then
-        let '(closed, q) := flush now (queue s1) in
-        if closed then fail_op now (release (close_conn s1)) c
-        else (set_rxbuf (set_queue s1 q) [], set_pc c CSend)
-      else fail_op now (release s1) c
+      if wait_of c =? 0 then flush_then now s1 c CSend
+      else (s1, set_pc c (CWaitB (now + wait_of c) true (pre_of c)))
+  | CWaitB w first l =>
+      (* the sleep is over: `if garbage is None: garbage = self._conn.flush_recv()`, then the send *)
+      if first then flush_then now s c (send_pc l) else (s, set_pc c (send_pc l))
+  | CSendPre l =>
+      match l with
+      | [] => (s, set_pc c CSend)
+      | p :: l' => (send_line me now s p, set_pc c (CWaitB (now + wait_of c) false l'))
+      end
   | CSend =>
       let x := cur_x c in
       let s1 := set_sendlog (set_queue s (device_react now x (queue s))) (sendlog s ++ [(me, x_id x, nconn s)]) in
@@ -298,7 +341,7 @@ Definition caller_enabled (me : nat) (now : Z) (s : shared) (c : cst) : bool :=
   | CAccess => acc_free s
   | CLockOuter | CLock => lock_free_for me s
   | CRecv e sl => head_ready now (queue s) || (sl <=? now)
-  | CSleepX w | CPause w => w <=? now
+  | CSleepX w | CPause w | CWaitB w _ _ => w <=? now
   | CDone => false
   | _ => true
   end.
@@ -370,8 +413,8 @@ Definition label_of (st : state) (t : tid) : label :=
   | TC i => match nth_error (callers st) i with
             | Some c => match pc c with
                         | CStart => LStart | CAccess => LAccess | CConnect => LConnect
-                        | CLockOuter | CLock => LLock | CSend => LSend | CRecv _ _ => LRecv
-                        | CSleepX _ | CPause _ => LSleep | CDone => LNone end
+                        | CLockOuter | CLock => LLock | CSend | CSendPre _ => LSend | CRecv _ _ => LRecv
+                        | CSleepX _ | CPause _ | CWaitB _ _ _ => LSleep | CDone => LNone end
             | None => LNone end
   | TP => match poll st with
           | QNone => LNone | QStart => LStart | QIdle => LWait | QAccess => LAccess | QConnect => LConnect end
